@@ -179,6 +179,7 @@ def main():
     if a.replay:
         rp, o = native(json.load(open(a.replay))['case']); print(o); sys.exit(1 if rp else 0)
     rep = R.Report('C12', a.tier, seed); timeout = solve.TIMEOUT_MS[a.tier]
+    R.prefetch_native('props.c12_native', ['bounded', str(seed), a.tier])      # the stand-in runs while the obligations are discharged
     u = DCm.Dist()
     for k in (KN.PM + '::_build_lut', KN.PM + '::_define_lut_func', KN.PM + '::_define_lut_func._lut_function', KN.PM + '::_PartitionnedDistinguisherBaseMixin._initialize', KN.PM + '::_PartitionnedDistinguisherBaseMixin._update', KN.PM + '::_set_partitions',
               KN.PM + '::PartitionedDistinguisherMixin._accumulate_core_1', KN.PM + '::PartitionedDistinguisherMixin._accumulate_core_2', KN.MM + '::MIADistinguisherMixin._accumulate_core',
